@@ -36,6 +36,19 @@ def iterStep (l : String) (ws : List String) : Option (List String) :=
       some [l, "= " ++ showHVecs (threeValAll v),
             "~ " ++ iterSpecLine ref (3 ^ nUnd v) (fun w => decide (isRefinement w v)) true]
     | none => some [l, "= bad-request", "~ bad-request"]
+  -- prefix of an enumeration with any number of undecided positions: N vectors (or all, if fewer
+  -- exist), pairwise distinct, each a completion / refinement of the input, the three-valued one
+  -- starting with the input itself
+  | p :: n :: vs =>
+    if p != "itp2" && p != "itp3" && p != "itc2" && p != "itc3" then none else
+    match n.toNat?, vs.mapM (fun w => w.toNat?) with
+    | some n, some v =>
+      let total := (if p.endsWith "3" then 3 else 2) ^ nUnd v
+      if p.startsWith "itp" then
+        some [l, s!"~ prefix count={min n total} distinct=1 members=1 first-is-input=1"]
+      else
+        some [l, s!"~ remaining={total - min n total} hint-consistent=1"]
+    | _, _ => some [l, "~ bad-request"]
   | _ => none
 
 end Drv
